@@ -57,6 +57,17 @@ ENERGY_V0 = ["generic", "stretch", "spin"]
 ENERGY_DT = [0.01, 0.2]
 ENERGY_STRESS = ["gonzalez", "quadrature"]
 ENERGY_TOL = 1e-8
+SLOW_LAWS = ("HolzapfelOgden", "AutoDiff")
+
+
+def energy_steps(tier, law, dt, stress):
+    """20 steps (quick) / 200 steps (thorough); the two laws whose step costs 0.1 - 0.8 CPU-s run 100 steps, and the one combination
+    whose adaptive path quadrature needs its full 33 points at every Gauss point (HolzapfelOgden's ks = 100 switch, large step) 40."""
+    if tier != "thorough":
+        return 20
+    if law == "HolzapfelOgden" and stress == "quadrature" and dt == max(ENERGY_DT):
+        return 40
+    return 100 if law in SLOW_LAWS else 200
 QUAD_ENERGY_TOL = 1e-10
 
 
@@ -343,15 +354,20 @@ def cases(tier, seed):
                 # plane strain with a fibre that is not in the plane (still T1 perpendicular to T2, unit length)
                 out.append({"kind": "material", "law": law, "elemType": et, "letters": "reduced", "fibres": "tilted"})
     # --- operators: level of the state/variant alphabet
-    def level(et, default_et):
-        return "full" if (thorough or default_et) else "reduced"
+    def level(et, default_et, op=""):
+        if thorough:
+            # the 31 (pair, rule) letters of the path-quadrature operator are element independent: on the four largest
+            # element types (>= 45 dofs) they are explored with the reduced alphabet
+            heavy = NPE[et] * Z.dim_of(et) >= 45
+            return "reduced" if (heavy and op == "TimeQuadratureStressTensor") else "full"
+        return "full" if default_et else "reduced"
 
     for op in BULK_OPS_LAW:
         for law in LAWS:
             for et in BULK_TYPES:
                 default_et = et == DEFAULT_ET[Z.dim_of(et)]
                 if thorough or default_et or law == DEFAULT_LAW:
-                    out.append({"kind": "operator", "op": op, "law": law, "elemType": et, "variants": level(et, default_et)})
+                    out.append({"kind": "operator", "op": op, "law": law, "elemType": et, "variants": level(et, default_et, op)})
     for op in BULK_OPS_NOLAW:
         for et in BULK_TYPES:
             out.append({"kind": "operator", "op": op, "law": DEFAULT_LAW, "elemType": et,
@@ -361,14 +377,13 @@ def cases(tier, seed):
     for et in SEG_TYPES + SURF_TYPES:
         out.append({"kind": "operator", "op": "PenaltyContact", "law": "-", "elemType": et, "variants": "full"})
     # --- energy
-    nsteps = 200 if thorough else 20
     combos = []
     if thorough:
-        for law in LAWS:
-            for mesh in ("Q4x2", "TET4x6"):
-                combos.append((law, mesh, ENERGY_V0))
-        for mesh in ("T3x2", "H8x2"):
+        for mesh in ENERGY_MESHES:
             combos.append((DEFAULT_LAW, mesh, ENERGY_V0))
+        for law in LAWS:
+            if law != DEFAULT_LAW:
+                combos.append((law, "Q4x2", ENERGY_V0 if law not in SLOW_LAWS else ["generic"]))
     else:
         combos.append((DEFAULT_LAW, "Q4x2", ENERGY_V0))
         for law in LAWS:
@@ -380,7 +395,8 @@ def cases(tier, seed):
         for v0 in v0s:
             for dt in ENERGY_DT:
                 for stress in ENERGY_STRESS:
-                    out.append({"kind": "energy", "law": law, "mesh": mesh, "v0": v0, "dt": dt, "stress": stress, "nsteps": nsteps})
+                    out.append({"kind": "energy", "law": law, "mesh": mesh, "v0": v0, "dt": dt, "stress": stress,
+                                "nsteps": energy_steps(tier, law, dt, stress)})
     return out
 
 
@@ -395,8 +411,9 @@ def describe(tier, seed):
                 "(operator: non-zero tangent; energy: stored energy exchanged > 1e-3 E0); distinct = fingerprint of W / tangents / energy history",
         "exhaustive": True,
         "bound": ("full product law x element type x deformation alphabet x dof (+ tilted fibres on every 2D type); operators: full product "
-                  "operator x law x element type x full state/variant alphabet; energy: 6 laws x {Q4x2, TET4x6} + default law x {T3x2, H8x2}, "
-                  "x 3 velocities x 2 dt x 2 stresses, 200 steps"
+                  "operator x law x element type x full state/variant alphabet (path quadrature on the 4 element types with >= 45 dofs: reduced "
+                  "alphabet); energy: default law x 4 meshes x 3 velocities x 2 dt x 2 stresses, every other law on Q4x2 (3 velocities; HolzapfelOgden and "
+                  "AutoDiff: the generic velocity), 200 steps (HolzapfelOgden/AutoDiff 100; HolzapfelOgden + quadrature + large dt 40)"
                   if thorough else
                   "deviation bound 1 from the default (MooneyRivlin, QUAD4 / HEXA8) over (law, element type), completed by the reduced-alphabet "
                   "product: every law on the default element types with the FULL deformation alphabet (57 letters in 2D, 129 in 3D); every other "
